@@ -173,13 +173,13 @@ def run_case(case, info):
         for i in range(n):
             defined = [o[f][i, c].d for f in "BH" for c in range(3)]
             bh = z3.Or(*[toz(o["B"][i, c]) != MU0 * toz(o["H"][i, c]) + toz(o["J"][i, c]) for c in range(3)])
-            C.oblige(f"{tag}.r{i}.B=mu0H+J", p.pc + defined, bh, on_model=mk("B=mu0H+J"), inputs=inputs,
+            C.oblige(f"{tag}.r{i}.B=mu0H+J", p.pc + defined, bh, on_model=mk("B=mu0H+J"), inputs=inputs, key=f"C02|{w.func}|B=mu0H+J",
                      sample=f"{w.func}: on this path B[{i}] == mu0*H[{i}] + J[{i}] for all reals")
             jm = z3.Or(*[toz(o["J"][i, c]) != MU0 * toz(o["M"][i, c]) for c in range(3)])
-            C.oblige(f"{tag}.r{i}.J=mu0M", p.pc, jm, on_model=mk("J=mu0M"), inputs=inputs)
+            C.oblige(f"{tag}.r{i}.J=mu0M", p.pc, jm, on_model=mk("J=mu0M"), inputs=inputs, key=f"C02|{w.func}|J=mu0M")
             if not w.magnet:
                 jz = z3.Or(*[toz(o["J"][i, c]) != 0 for c in range(3)])
-                C.oblige(f"{tag}.r{i}.J=0", p.pc, jz, on_model=mk("J=0"), inputs=inputs)
+                C.oblige(f"{tag}.r{i}.J=0", p.pc, jz, on_model=mk("J=0"), inputs=inputs, key=f"C02|{w.func}|J=0")
             else:
                 io = inside_outside(name, A, i)
                 if io is not None:
@@ -187,11 +187,11 @@ def run_case(case, info):
                     pol = A["polarization"]
                     if ins is not None:
                         viol = z3.And(ins, z3.Or(*[toz(o["J"][i, c]) != toz(pol[i, c]) for c in range(3)]))
-                        C.oblige(f"{tag}.r{i}.J=pol-inside", p.pc + extra, viol, on_model=mk("J-inside"), inputs=inputs)
+                        C.oblige(f"{tag}.r{i}.J=pol-inside", p.pc + extra, viol, on_model=mk("J-inside"), inputs=inputs, key=f"C02|{w.func}|J-inside")
                     viol = z3.And(out, z3.Or(*[toz(o["J"][i, c]) != 0 for c in range(3)]))
-                    C.oblige(f"{tag}.r{i}.J=0-outside", p.pc + extra, viol, on_model=mk("J-outside"), inputs=inputs)
+                    C.oblige(f"{tag}.r{i}.J=0-outside", p.pc + extra, viol, on_model=mk("J-outside"), inputs=inputs, key=f"C02|{w.func}|J-outside")
 
-    paths = explore(run, max_paths=300 if C.tier == "quick" else 3000, on_path=on_path)
+    paths = explore(run, max_paths=300 if C.tier == "quick" else 3000, on_path=on_path, seeds=C.seed_envs(inputs, n=2))
     C.decisions += sum(len(p.decisions) for p in paths)
     if explore.truncated:
         C.note_inconclusive("path-budget", "path budget hit; remaining paths not explored")
